@@ -1,6 +1,9 @@
 package checks
 
 import (
+	"github.com/go-i2p/common/certificate"
+	"github.com/go-i2p/common/key_certificate"
+	"strings"
 	"time"
 
 	"fmt"
@@ -54,18 +57,99 @@ type c09Path struct {
 	run func(id []byte, k refmodel.KeysAndCert, sig, cr int) (int, int, bool)
 }
 
+// The types an identity "declares" are what it puts on the wire: the key certificate inside its own
+// serialisation. When the accessors say something else, the more dangerous of the two views is returned (a
+// prohibited type in either view is a prohibited type).
+func wireTypes(b []byte, err error) (int, int, bool) {
+	if err != nil || len(b) < 384+7 || b[384] != 5 {
+		return 0, 0, false
+	}
+	return int(b[387])<<8 | int(b[388]), int(b[389])<<8 | int(b[390]), true
+}
+
+func worseView(as, ac int, ws, wc int, wok bool, ri bool) (int, int, bool) {
+	if !wok {
+		return as, ac, true
+	}
+	bad := func(s, c int) bool {
+		if ri {
+			return refmodel.ProhibitedRISig(s) || refmodel.ProhibitedRICrypto(c)
+		}
+		return refmodel.ProhibitedDestSig(s) || refmodel.ProhibitedDestCrypto(c)
+	}
+	if bad(ws, wc) && !bad(as, ac) {
+		return ws, wc, true
+	}
+	return as, ac, true
+}
+
 func destTypes(d destination.Destination) (int, int, bool) {
 	if d.KeysAndCert == nil || d.KeyCertificate == nil {
 		return 0, 0, false
 	}
-	return d.KeyCertificate.SigningPublicKeyType(), d.KeyCertificate.PublicKeyType(), true
+	var ws, wc int
+	var wok bool
+	core.Guard(func() { ws, wc, wok = wireTypes(d.Bytes()) })
+	return worseView(d.KeyCertificate.SigningPublicKeyType(), d.KeyCertificate.PublicKeyType(), ws, wc, wok, false)
 }
 
 func riTypes(r *router_identity.RouterIdentity) (int, int, bool) {
 	if r == nil || r.KeysAndCert == nil || r.KeyCertificate == nil {
 		return 0, 0, false
 	}
-	return r.KeyCertificate.SigningPublicKeyType(), r.KeyCertificate.PublicKeyType(), true
+	var ws, wc int
+	var wok bool
+	core.Guard(func() { ws, wc, wok = wireTypes(r.KeysAndCert.Bytes()) })
+	return worseView(r.KeyCertificate.SigningPublicKeyType(), r.KeyCertificate.PublicKeyType(), ws, wc, wok, true)
+}
+
+// c09Rewritten: a permitted (7,4) identity is parsed; the caller then rewrites the four key-type bytes through
+// the payload slice the certificate accessor hands out (where that slice is the certificate's own storage),
+// and passes the KeysAndCert to a wrapping constructor. ok=false when the write did not reach the certificate
+// (the accessor returned a copy) or the constructor refused.
+func c09Rewritten(sig, cr int, wrap func(k *keys_and_cert.KeysAndCert) (int, int, bool)) (int, int, bool) {
+	id, _ := c09Identity(7, 4, nil)
+	k, _, err := keys_and_cert.ReadKeysAndCert(id)
+	if err != nil || k == nil || k.Certificate() == nil {
+		return 0, 0, false
+	}
+	d, err := k.Certificate().Data()
+	if err != nil || len(d) < 4 {
+		return 0, 0, false
+	}
+	copy(d[:4], append(refmodel.BE(uint64(sig), 2), refmodel.BE(uint64(cr), 2)...))
+	gs, gc, ok := wrap(k)
+	if ok && gs == 7 && gc == 4 && (sig != 7 || cr != 4) {
+		return 0, 0, false // the write did not reach the certificate: nothing was asked of the policy
+	}
+	return gs, gc, ok
+}
+
+// c09BuilderReuse: an identity is built from a (7,4) certificate made by a CertificateBuilder; the SAME builder is
+// then asked for a certificate with other key types; the identity built first is looked at again.
+func c09BuilderReuse(sig, cr int, build func(c *certificate.Certificate) (func() (int, int, bool), bool)) (int, int, bool) {
+	b := certificate.NewCertificateBuilder()
+	if _, err := b.WithKeyTypes(7, 4); err != nil {
+		return 0, 0, false
+	}
+	c1, err := b.Build()
+	if err != nil || c1 == nil {
+		return 0, 0, false
+	}
+	look, ok := build(c1)
+	if !ok {
+		return 0, 0, false
+	}
+	core.Guard(func() {
+		if _, err := b.WithKeyTypes(sig, cr); err == nil {
+			b.Build()
+		}
+	})
+	gs, gc, ok := look()
+	if ok && gs == 7 && gc == 4 {
+		return 0, 0, false // unchanged, as it must be: nothing to report for the pair (sig, cr)
+	}
+	return gs, gc, ok
 }
 
 func siglen(t int) int {
@@ -234,6 +318,59 @@ var c09Paths = []c09Path{
 			_, _ = encrypted_leaseset.CreateBlindedDestination(d, make([]byte, 32), time.Unix(int64(gen.Published), 0))
 		})
 		return destTypes(d)
+	}},
+	{"keys_and_cert.ReadKeysAndCert(7/4) + type bytes rewritten through Certificate().Data() + destination.NewDestination", "dest", func(_ []byte, _ refmodel.KeysAndCert, sig, cr int) (int, int, bool) {
+		return c09Rewritten(sig, cr, func(k *keys_and_cert.KeysAndCert) (int, int, bool) {
+			d, err := destination.NewDestination(k)
+			if err != nil || d == nil {
+				return 0, 0, false
+			}
+			return destTypes(*d)
+		})
+	}},
+	{"keys_and_cert.ReadKeysAndCert(7/4) + type bytes rewritten through Certificate().Data() + router_identity.NewRouterIdentityFromKeysAndCert", "ri", func(_ []byte, _ refmodel.KeysAndCert, sig, cr int) (int, int, bool) {
+		return c09Rewritten(sig, cr, func(k *keys_and_cert.KeysAndCert) (int, int, bool) {
+			ri, err := router_identity.NewRouterIdentityFromKeysAndCert(k)
+			if err != nil {
+				return 0, 0, false
+			}
+			return riTypes(ri)
+		})
+	}},
+	{"router_identity.NewRouterIdentity(certificate from a CertificateBuilder), re-observed after the builder was reused", "ri", func(_ []byte, _ refmodel.KeysAndCert, sig, cr int) (int, int, bool) {
+		return c09BuilderReuse(sig, cr, func(c *certificate.Certificate) (func() (int, int, bool), bool) {
+			_, k := c09Identity(7, 4, nil)
+			pk, e1 := adapt.CryptoPub(4, k.Crypto)
+			sk, e2 := adapt.SigningPub(7, k.Signing)
+			if e1 != nil || e2 != nil {
+				return nil, false
+			}
+			ri, err := router_identity.NewRouterIdentity(pk, sk, c, append([]byte(nil), k.Padding...))
+			if err != nil || ri == nil {
+				return nil, false
+			}
+			return func() (int, int, bool) { return riTypes(ri) }, true
+		})
+	}},
+	{"destination.NewDestination(NewKeysAndCert(certificate from a CertificateBuilder)), re-observed after the builder was reused", "dest", func(_ []byte, _ refmodel.KeysAndCert, sig, cr int) (int, int, bool) {
+		return c09BuilderReuse(sig, cr, func(c *certificate.Certificate) (func() (int, int, bool), bool) {
+			_, k := c09Identity(7, 4, nil)
+			pk, e1 := adapt.CryptoPub(4, k.Crypto)
+			sk, e2 := adapt.SigningPub(7, k.Signing)
+			kc, e3 := key_certificate.KeyCertificateFromCertificate(c)
+			if e1 != nil || e2 != nil || e3 != nil {
+				return nil, false
+			}
+			kac, err := keys_and_cert.NewKeysAndCert(kc, pk, append([]byte(nil), k.Padding...), sk)
+			if err != nil {
+				return nil, false
+			}
+			d, err := destination.NewDestination(kac)
+			if err != nil || d == nil {
+				return nil, false
+			}
+			return func() (int, int, bool) { return destTypes(*d) }, true
+		})
 	}},
 	{"router_identity.NewRouterIdentityFromBytes", "ri", func(id []byte, _ refmodel.KeysAndCert, _, _ int) (int, int, bool) {
 		r, _, err := router_identity.NewRouterIdentityFromBytes(id)
@@ -406,6 +543,9 @@ func runC09(r *core.Run) {
 		representable := (cr == 0 || cr == 4) && (sig == 0 || sig == 1 || sig == 2 || sig == 7 || (sig == 11 && p.kind == "dest"))
 		if p.name == "router_identity.RouterIdentity.AsDestination" && sig == 11 {
 			representable = false // RedDSA cannot be in a RouterIdentity to start from
+		}
+		if strings.Contains(p.name, "rewritten through") || strings.Contains(p.name, "builder was reused") {
+			representable = false // history paths: success is not promised (key sizes no longer fit / nothing changed)
 		}
 		if representable && !prohibited {
 			r.Violate(fmt.Sprintf("C09|permitted-pair-rejected|%s|%d/%d", p.name, sig, cr), fmt.Sprintf("%s fails for the permitted, supported pair signing %d / crypto %d", p.name, sig, cr), core.Case{Kind: "pair", Args: args})
